@@ -36,6 +36,7 @@ static struct {
 static int nL;
 
 static uint16_t scratch[70000];
+long g_fault_k; /* fault plan of the current step (0 = none), for drv_alloc */
 
 /* maximal runs of consecutive values in output order */
 static void put_runs(const char *key, const uint16_t *v, uint32_t n) {
@@ -63,6 +64,9 @@ static void observe(const char *op, long a, long b, const char *k, int f,
     ev_str("k", k);
     ev_int("fault", f);
     ev_int("ret", ret);
+    ev_int("fk", g_fault_k);
+    ev_int("nalloc", shim_calls);
+    ev_int("injected", shim_failed);
     if (f || !vb) {
         ev_int("dead", 1);
         ev_end();
@@ -180,6 +184,8 @@ static varintBitmap *apply(varintBitmap *vb, const char *op, long a, long b,
         if (!f && c) {
             varintBitmapFree(vb);
             vb = c;
+        } else if (!f) {
+            ret = 0; /* NULL: documented failure indication */
         }
     } else if (!strcmp(op, "Codec")) {
         size_t n = 0;
@@ -222,6 +228,8 @@ static varintBitmap *apply(varintBitmap *vb, const char *op, long a, long b,
             observe("Operand", 0, 0, k, 0, 1, vb, NULL);
             varintBitmapFree(vb);
             vb = r;
+        } else if (!f) {
+            ret = 0; /* NULL: documented failure indication */
         }
     }
     observe(op, a, b, k, f, ret, vb, operand);
@@ -296,6 +304,7 @@ static void random_walk(void) {
     run_walk(buf);
 }
 
+#ifndef DRV_BITMAP_NO_MAIN
 int main(int argc, char **argv) {
     if (argc < 6) {
         fprintf(stderr, "usage: %s walks shard nshards nrandom out\n", argv[0]);
@@ -359,3 +368,4 @@ int main(int argc, char **argv) {
     tr_close();
     return 0;
 }
+#endif
